@@ -1,6 +1,7 @@
 """C09: reversed / split / cropped trace the same curve under the documented parameter map."""
 from __future__ import annotations
 import math
+import warnings
 import numpy as np
 from fractions import Fraction as Fr
 from ..tracejobs import *
@@ -261,6 +262,27 @@ def sample(ctx, budget=1.0, hint=None, broken=None):
                 fail('%s.cropped/points' % kind, 'cropped(t0,t1).point(u) != point(t0+u(t1-t0))', {'seg': desc, 't0': t0, 't1': t1, 'u': u},
                      repr(cr.point(u)), repr(seg.point(t0 + u * (t1 - t0))), 'svgpathtools.%s.cropped(%r, %r).point(%r)' % (desc, t0, t1, u))
                 break
+        # the piece is a segment in its own right: reversing it, or moving it rigidly, must trace the same piece (whatever
+        # bookkeeping the crop left on it is used by those operations)
+        try:
+            with warnings.catch_warnings():
+                warnings.simplefilter('ignore')
+                crv = cr.reversed()
+                ctr = cr.translated(0j) if kind != 'arc' else cr.translated(complex(0, 0))
+            for u in us:
+                if abs(crv.point(u) - cr.point(1 - u)) > ctol * 10 or abs(ctr.point(u) - cr.point(u)) > ctol * 10:
+                    fail('%s.cropped then reversed/translated' % kind, 'reversed() / translated(0) of a cropped piece does not trace the piece', {'seg': desc, 't0': t0, 't1': t1, 'u': u},
+                         repr((crv.point(u), ctr.point(u))), repr((cr.point(1 - u), cr.point(u))), 'svgpathtools.%s.cropped(%r, %r).reversed().point(%r)' % (desc, t0, t1, u))
+                    break
+            a_, b_ = seg.split(0.5 if kind != 'arc' else r.choice([0.5, 0.3, 0.7]))
+            for pc_, nm_ in ((a_, 'split()[0]'), (b_, 'split()[1]')):
+                if any(abs(pc_.reversed().point(u) - pc_.point(1 - u)) > ctol * 10 for u in us):
+                    fail('%s.split then reversed' % kind, 'reversed() of a split piece does not trace the piece', {'seg': desc, 'piece': nm_}, repr(pc_.reversed().point(0.3)),
+                         repr(pc_.point(0.7)), '')
+                    break
+        except Exception as e:
+            fail('%s.cropped then reversed/raises' % kind, 'reversed()/translated() of a cropped piece raised', {'seg': desc, 't0': t0, 't1': t1}, repr(e)[:200], 'a segment',
+                 'svgpathtools.%s.cropped(%r, %r).reversed()' % (desc, t0, t1))
         if len(samples) < 2:
             samples.append({'seg': desc, 't': t, 't0': t0, 't1': t1})
 
